@@ -61,6 +61,13 @@ typedef unsigned long vp_bits_t;
 /* ---------------------------------------------------------------------------------------
  * vectors: std::vector<X> is {p, n, cap}; cap is ghost (capacity assertion for push_back)
  * ------------------------------------------------------------------------------------- */
+#ifdef VP_PUSH_ASSUME_CAP
+/* the element count is non-linear in the loop counters (rows x columns): "the reserved capacity suffices" is the integer
+ * lemma L-cell-index (specs/int_lemmas.smt2) and is assumed here; the counts themselves are asserted by the spec */
+#define VP_PUSH_CAPACITY_CHECK(v) __CPROVER_assume((v)->n < (v)->cap);
+#else
+#define VP_PUSH_CAPACITY_CHECK(v) __CPROVER_assert((v)->n < (v)->cap, "push_back within reserved capacity");
+#endif
 #define VP_DECLARE_VEC(NAME, ELEM) typedef struct NAME { ELEM *p; size_t n; size_t cap; } NAME;
 VP_DECLARE_VEC(vec_T, T)
 VP_DECLARE_VEC(vec_sz, size_t)
@@ -171,7 +178,7 @@ static inline size_t vp_back(size_t n)
 #define VP_DEFINE_VEC_PUSH_SCALAR(NAME, ELEM) \
   static inline void vp_##NAME##_push(NAME *v, ELEM x)                                       \
   {                                                                                          \
-    __CPROVER_assert(v->n < v->cap, "push_back within reserved capacity");                   \
+    VP_PUSH_CAPACITY_CHECK(v)                                                                \
     v->p[v->n] = x; v->n = v->n + 1;                                                         \
   }
 
